@@ -57,21 +57,6 @@ UNIT['parts'] += [
     mfn('feel_time_offset', requires=[('nanos_fit', 'me.1.3 <= u32::MAX')],
         ensures=[('own_offset', 'r == (if me.1.4 is Local { None::<i32> } else { dt_offset(*me) })')]),
 ]
-# FeelDate comparisons: a date is compared as midnight UTC of that day
-for name in ['equal', 'before', 'before_or_equal', 'after', 'after_or_equal']:
-    ordexpr = {'equal': '== Ordering::Equal', 'before': '== Ordering::Less', 'before_or_equal': '!= Ordering::Greater',
-               'after': '== Ordering::Greater', 'after_or_equal': '!= Ordering::Less'}[name]
-    UNIT['parts'].append({'kind': 'fn', 'src': D, 'path': 'impl FeelDate::fn ' + name, 'key': 'timeline::FeelDate::' + name, 'props': P, 'auto_props': A, 'loops': 0,
-                          'ret': 'r',
-                          'ensures': [('as_midnight_utc', 'r == (if dt_compare(midnight(*self), midnight(*other)) is Some { Some(dt_compare(midnight(*self), midnight(*other))->Some_0 %s) } else { None::<bool> })' % ordexpr)]})
-
-UNIT['parts'].append({'kind': 'fn', 'src': D, 'path': 'impl FeelDate::fn between', 'key': 'timeline::FeelDate::between', 'props': ['C15', 'C09'], 'auto_props': ['C15', 'C09', 'C05'], 'loops': 0,
-    'ret': 'r',
-    'ensures': [('as_midnight_utc_conjunction',
-                 'r == (if dt_compare(midnight(*self), midnight(*left)) is Some && dt_compare(midnight(*self), midnight(*right)) is Some { '
-                 'Some((if left_closed { dt_compare(midnight(*self), midnight(*left))->Some_0 != Ordering::Less } else { dt_compare(midnight(*self), midnight(*left))->Some_0 == Ordering::Greater }) '
-                 '&& (if right_closed { dt_compare(midnight(*self), midnight(*right))->Some_0 != Ordering::Greater } else { dt_compare(midnight(*self), midnight(*right))->Some_0 == Ordering::Less })) '
-                 '} else { None::<bool> })')]})
 
 NOT_DECIDED = {'C15': ['what chrono computes for instant_of / zone_off / local_off / weekday (uninterpreted): only that each value is converted with ITS OWN date, time and offset and that results are combined as specified']}
 ASSUMPTIONS = ['A-chrono: date_time_offset / get_zone_offset / get_local_offset / DateTime::cmp / sub / weekday are stubs over uninterpreted instant_of, zone_off, local_off, weekday_of',
